@@ -71,6 +71,13 @@ def check_block(block):
             bad.setdefault("construct/%s" % type(e).__name__, (q, str(e)[:60]))
             continue
         islog = ref_log(lb, plb, pub, ub, scaling)
+        A_ = [arr(lb), arr(ub), arr(plb), arr(pub)]
+        try:
+            VariableTransformer(1, A_[0], A_[1], A_[2], A_[3], None if scaling else np.zeros((1, 1)))
+            if not (A_[0][0, 0] == lb and A_[1][0, 0] == ub and A_[2][0, 0] == plb and A_[3][0, 0] == pub):
+                bad.setdefault("caller-arrays-modified", q)
+        except Exception:  # noqa
+            pass
         if bool(vt.apply_log_t[0, 0]) != islog:
             bad.setdefault("log-flag", q)
             continue
@@ -146,10 +153,22 @@ def check_multi(combo):
     pub = np.array([[x[2] for x in q]])
     ub = np.array([[x[3] for x in q]])
     bad = {}
+    given = [a.copy() for a in (lb, ub, plb, pub)]
     try:
         vt = VariableTransformer(D, lb, ub, plb, pub)
     except Exception as e:  # noqa
         return 1, {"construct-multi/%s" % type(e).__name__: (combo, str(e)[:60])}
+    # the caller's own arrays are inputs, not scratch space: unchanged after construction, and a second transformer built
+    # from the same objects is the same transform
+    if not all(np.array_equal(a, b, equal_nan=True) for a, b in zip((lb, ub, plb, pub), given)):
+        bad["caller-arrays-modified"] = combo
+    else:
+        try:
+            vt2 = VariableTransformer(D, lb, ub, plb, pub)
+            if not all(np.array_equal(getattr(vt2, a), getattr(vt, a)) for a in ("lb", "ub", "plb", "pub", "apply_log_t")):
+                bad["second-construction-differs"] = combo
+        except Exception as e:  # noqa
+            bad["second-construction-differs"] = combo
     flags = [ref_log(*x) for x in q]
     if list(vt.apply_log_t.ravel().astype(bool)) != flags:
         bad["log-flag-multi"] = combo
@@ -172,6 +191,21 @@ def check_multi(combo):
         if not np.array_equal(np.ravel(vt(X[i])), U[i]) or not np.array_equal(np.ravel(vt.inverse_transf(U[i])), Xb[i]):
             bad["vector-vs-matrix-multi"] = combo
             break
+    # just-outside inputs, one coordinate at a time (the others at the middle of their plausible range): the coordinate's
+    # image is the edge of the internal box - also when *another* coordinate is unbounded, and also for zero / negative
+    # inputs below a log-scaled bound
+    mid = np.array([[math.sqrt(x[1] * x[2]) if f_ else 0.5 * (x[1] + x[2]) for x, f_ in zip(q, flags)]])
+    for j, x in enumerate(q):
+        if not np.isfinite(x[0]):
+            continue
+        w_ = x[3] - x[0]
+        for val, edge in ((x[0] - 1e-9 * w_, vt.lb[0, j]), (x[3] + 1e-9 * w_, vt.ub[0, j]), (x[0] - 0.5 * w_, vt.lb[0, j]), (x[3] + 0.5 * w_, vt.ub[0, j])):
+            P_ = mid.copy()
+            P_[0, j] = val
+            u_ = vt(P_)
+            if not (u_[0, j] == edge) or np.any(np.isnan(u_)):
+                bad["order-reversed-outside-multi"] = (combo, j, float(val), float(u_[0, j]), float(edge))
+                break
     return 1, bad
 
 
